@@ -226,8 +226,18 @@ def _servers(X, which, lport, fam_hint, mode_transport):
     decoy_port = X.int("decoy_port", 1, 65535)
     X.assume(decoy_port != lport)
     decoy = _Srv(_mode("tcp"), [("127.0.0.1", decoy_port)])
-    order = X.choose("decoy", ["none", "before", "after"])
-    servers = [main] if order == "none" else ([decoy, main] if order == "before" else [main, decoy])
+    # ... or a twin instance on the SAME addresses and port that serves the other transport (a TCP mode and a UDP mode may share a
+    # port number): the connection is a loop if ANY instance serves its transport there
+    twin_ok = mode_transport != "both"
+    order = X.choose("decoy", ["none", "before", "after"] + (["twin-before", "twin-after"] if twin_ok else []))
+    if order.startswith("twin"):
+        twin = _Srv(_mode("udp" if mode_transport == "tcp" else "tcp"), list(addrs))
+        servers = [twin, main] if order == "twin-before" else [main, twin]
+        X.reach("twin-other-transport")
+        _servers.twin = True
+    else:
+        servers = [main] if order == "none" else ([decoy, main] if order == "before" else [main, decoy])
+        _servers.twin = False
     return servers, hosts, decoy_port
 
 
@@ -246,6 +256,7 @@ def h_sym(X, fam):
     which = X.choose("listen_host", LISTEN)
     lfam = X.choose("listen_family", [4, 6]) if which == "specific" else fam
     servers, hosts, decoy_port = _servers(X, which, lport, lfam, mode_transport)
+    served = served or _servers.twin  # main and twin together serve both transports
     n = X.bv("dest_addr", 32 if fam == 4 else 128)
     dest_host = SymHost(fam, n) if X.symbolic else str(_mk_addr(fam, n))
     got = _run(servers, dest_host, cport, transport)
@@ -355,8 +366,9 @@ def obligations(tier):
     obs = [
         Symx("dest-v4-all", lambda X: h_sym(X, 4),
              bounds="all 2^32 IPv4 destinations (canonical text) x listen host {127.0.0.1, ::1, 0.0.0.0, ::, '' (both wildcards), any specific IPv4/IPv6 address (symbolic)} "
-                    "x symbolic listen/connect/decoy ports 1..65535 x mode transport {tcp,udp,both} x connection transport {tcp,udp} x decoy server position",
-             encoded=ENCODED, must_reach=["decided", "refused", "allowed"], stubs=stubs, parallel_depth=3),
+                    "x symbolic listen/connect/decoy ports 1..65535 x mode transport {tcp,udp,both} x connection transport {tcp,udp} x {no second instance, decoy instance on another port before/after, twin instance on the same "
+                    "addresses and port serving the other transport before/after}",
+             encoded=ENCODED, must_reach=["decided", "refused", "allowed", "twin-other-transport"], stubs=stubs, parallel_depth=3),
         Symx("dest-v6-all", lambda X: h_sym(X, 6),
              bounds="all 2^128 IPv6 destinations (canonical text, incl. IPv4-mapped) x the same listen/port/transport space",
              encoded=ENCODED, must_reach=["decided", "refused", "allowed"], stubs=stubs, parallel_depth=3),
